@@ -159,6 +159,58 @@ Definition saver_shape (t v : Z) : Z :=
   | None => 0
   end.
 
+(* ---- dispatch over registries that grow between saves (the saver / loader decorators are VersionedDict assignments,
+        keyed by class).  The reference for every save is [save_lookup] recomputed from the registry as it is at that
+        moment: any memo inside the implementation must be transparent with respect to it. *)
+Fixpoint save_lookup (d : vd) (mro : list Z) : option (Z * res) :=
+  match mro with
+  | [] => None
+  | t :: r => match lookup t d with
+              | Some vs => Some (t, newest vs)      (* `typ in self.dispatch` ... `self.dispatch[typ]` *)
+              | None => save_lookup d r
+              end
+  end.
+
+Fixpoint load_lookup (d : vd) (mro : list Z) (v : Z) : option (Z * Z) :=
+  match mro with
+  | [] => None
+  | t :: r => match stored d t v with
+              | Some x => Some (t, x)
+              | None => load_lookup d r v
+              end
+  end.
+
+Inductive rop :=
+| RegSaver (c : Z) (ver : option Z) (val : Z)
+| RegLoader (c : Z) (ver : option Z) (val : Z)
+| DoSave (c : Z)
+| DoLoad (c v : Z).
+
+Definition mro_of (cl : list (Z * list Z)) (c : Z) : list Z :=
+  match find (fun p => fst p =? c) cl with Some p => snd p | None => [c] end.
+
+(* one result per operation: registration outcome / (class, version, function) used by the save or load *)
+Inductive rres := RReg (r : res) | RUsed (t v x : Z) | RRaises (code : Z).
+
+Fixpoint run_reg_ops (cl : list (Z * list Z)) (sv lv : vd) (ops : list rop) : list rres :=
+  match ops with
+  | [] => []
+  | RegSaver c ver val :: r => let '(sv', x) := step sv (SetItem c ver val) in RReg x :: run_reg_ops cl sv' lv r
+  | RegLoader c ver val :: r => let '(lv', x) := step lv (SetItem c ver val) in RReg x :: run_reg_ops cl sv lv' r
+  | DoSave c :: r =>
+      (match save_lookup sv (mro_of cl c) with
+       | Some (t, RPair x v) => RUsed t v x
+       | Some (_, RValueError) => RRaises 1
+       | Some (_, _) => RRaises 2
+       | None => RRaises 5                      (* GlueSerializeError: don't know how to serialize *)
+       end) :: run_reg_ops cl sv lv r
+  | DoLoad c v :: r =>
+      (match load_lookup lv (mro_of cl c) v with
+       | Some (t, x) => RUsed t v x
+       | None => RRaises 5
+       end) :: run_reg_ops cl sv lv r
+  end.
+
 (* ================================================================= 3. renamed classes *)
 
 Definition patch_lookup_in (ps : list patch_row) (nm : Z) : option Z :=
@@ -231,6 +283,22 @@ Definition enc_how (h : option how) : tree :=
   | Some (Reg t v) => T 2 [leaf t; leaf v]
   end.
 
+Definition dec_rop (t : tree) : rop :=
+  match t with
+  | T 0 [T c _; v; T val _] => RegSaver c (opt_z v) val
+  | T 1 [T c _; v; T val _] => RegLoader c (opt_z v) val
+  | T 2 [T c _] => DoSave c
+  | T 3 [T c _; T v _] => DoLoad c v
+  | _ => DoSave (-1)
+  end.
+
+Definition enc_rres (r : rres) : tree :=
+  match r with
+  | RReg x => T 0 [enc_res x]
+  | RUsed t v x => T 1 [leaf t; leaf v; leaf x]
+  | RRaises c => err c
+  end.
+
 Definition run_case (t : tree) : tree :=
   match t with
   | T 1 ops => let '(d, rs) := run [] (map dec_op ops) in T 0 [T 0 (map enc_res rs); enc_vd d]
@@ -243,5 +311,8 @@ Definition run_case (t : tree) : tree :=
                   Z.of_nat (List.length savers); Z.of_nat (List.length loaders);
                   fold_left Z.add (map c_id classes) 0; fold_left Z.add (map p_to patches) 0]
   | T 15 [T n _] => T 3 [leaf (of_bool (target_ok n))]
+  (* registrations interleaved with saves and loads over throw-away classes: T 20 [classes (T id mro); ops] *)
+  | T 20 [T _ cls; T _ ops] =>
+      T 0 (map enc_rres (run_reg_ops (map (fun c => (tag c, to_zs c)) cls) [] [] (map dec_rop ops)))
   | _ => err (-2)
   end.
